@@ -533,13 +533,21 @@ def rule_sp_sem(ctx: RuleContext, p: Program, rid: str, max_len: int = 5) -> Non
                             t.cls = 'Newline'
                 nxt = {id(t): (toks[i + 1] if i + 1 < len(toks) else None) for i, t in enumerate(toks)}
                 it = Interp(ts, [], module=m)
-                if len(fn.params) == 2:
-                    res = it.call_function(fn, [toks[0] if toks else None, lambda t: nxt[id(t)]], {})      # (first neighbour, successor function)
-                elif len(fn.params) == 1:
-                    res = it.call_function(fn, [possem._It(toks)], {})                                      # (iterator over the neighbours)
-                else:
-                    ctx.not_decided.append('SP-SEM: _find_spacing has a signature this rule cannot drive; the accessors are evaluated whole by SP-ACC')
-                    return
+                try:
+                    if len(fn.params) == 2:
+                        res = it.call_function(fn, [toks[0] if toks else None, lambda t: nxt[id(t)]], {})      # (first neighbour, successor function)
+                    elif len(fn.params) == 1:
+                        res = it.call_function(fn, [possem._It(toks)], {})                                      # (iterator over the neighbours)
+                    else:
+                        ctx.not_decided.append('SP-SEM: _find_spacing has a signature this rule cannot drive; the accessors are evaluated whole by SP-ACC')
+                        return
+                except possem.Raised as ex:
+                    n += 1
+                    if first_bad is None:
+                        show = ' '.join({'Z': 'mark', 'z': 'empty-blank', 'S': 'blank', 'O': 'other'}[c] for c in seq)
+                        first_bad = (f'for the neighbours [{show}] (then the end of the store) it raises {ex}: reading or assigning the spacing of a model '
+                                     f'at the edge of the document fails')
+                    continue
                 n += 1
                 if not isinstance(res, (list, tuple)):
                     raise AnalysisError(f'SP-SEM: _find_spacing returned {res!r}')
